@@ -58,12 +58,24 @@ def make_watcher(rn, keys):
 
 
 def winning_nonce(cm, pool, pk, clock, start, tries=4000):
-    """a nonce for which the block prescribed by (head, pool, key, clock) has an id below target"""
+    """a nonce for which the block prescribed by (head, pool, key, clock) has an id below target; the block is put
+    together here (not by the repository's assembler, whose internal state must not be disturbed by this search)"""
+    from skepticoin.datatypes import Transaction, Input, Output, OutputReference, BlockSummary
+    from skepticoin.signing import CoinbaseData
+    from skepticoin.merkletree import get_merkle_root
     cs = cm.coinstate
-    ts = max(clock, cs.head().timestamp + 1)
+    head = cs.head()
+    ts = max(clock, head.timestamp + 1)
+    height = head.height + 1
+    utxo = cs.unspent_transaction_outs_by_hash[cs.current_chain_hash]
+    fees = sum(sum(utxo[i.output_reference].value for i in t.inputs) - sum(o.value for o in t.outputs) for t in pool)
+    cb = Transaction([Input(OutputReference(b"\x00" * 32, 0), CoinbaseData(height, b""))],
+                     [Output(chain.subsidy(height) + fees, SECP256k1PublicKey(pk))])
+    txs = [cb] + list(pool)
+    root = get_merkle_root([t.hash() for t in txs])
+    target = consensus.calc_target(cs, height, ts, head)
     for nonce in range(start, start + tries):
-        summary, height, txs = consensus.construct_block_pow_evidence_input(
-            cs, list(pool), SECP256k1PublicKey(pk), ts, b'', nonce)
+        summary = BlockSummary(height, cs.current_chain_hash, root, ts, target, nonce)
         sh = consensus.construct_summary_hash(summary, height)
         ev = consensus.construct_pow_evidence_after_scrypt(sh, cs, summary, height, txs)
         b = Block(BlockHeader(summary, ev), txs)
@@ -210,12 +222,31 @@ def run(ctx):
                 sig_mark = len(keys.oracle)
                 ops.append("node tx 0 " + hx(tx.serialize()))
                 impl.append(rr)
-            pool = list(cm.transaction_pool)
             # clock relative to the head's timestamp
             delta = rng.choice([-1000, -31, -30, -29, -1, 0, 1, 5, 100, 100000])
             clock = hd.timestamp + delta
             node.CLOCK[0] = clock
             w.public_key = keys.pks[rng.randrange(0, 5)]
+            if rng.random() < 0.5:
+                # a first (losing) attempt on this head, then a further fee-paying transaction is relayed to the node while
+                # the miner keeps working on the same head: the winning candidate must account for it too
+                try:
+                    w.handle_request_scrypt_input_message(0, rng.randrange(0, 1 << 20))
+                except Exception:
+                    pass
+                in_pool = {i.output_reference for t in cm.transaction_pool for i in t.inputs}
+                late = [(r, o) for r, o in sp if r not in in_pool and o.value > 2000]
+                if late:
+                    r, o = late[0]
+                    tx = chain.make_tx(keys, utxo, [r], [(o.value - rng.choice([1, 700, 1999]), rng.randrange(0, 5))])
+                    rr = rn.deliver_tx(0, tx)
+                    ops.extend(keys.oracle_lines(sig_mark))
+                    impl.extend(["ok"] * (len(keys.oracle) - sig_mark))
+                    sig_mark = len(keys.oracle)
+                    ops.append("node tx 0 " + hx(tx.serialize()))
+                    impl.append(rr)
+                    res.count("transaction_relayed_while_mining_on_the_same_head")
+            pool = list(cm.transaction_pool)
             # search a nonce for which the candidate is a solution (the miner process does exactly this)
             # the nonce is searched outside the watcher (as the miner processes do), so that the watcher assembles
             # exactly one candidate for this head, pool and clock: the one that wins
